@@ -11,10 +11,14 @@ RUN_MODULE = "RunC10"
 DRIVER = "lookup_driver.py"
 SHARD = 250
 MAX_DRIVER_SHARDS = 6
-RULE = ("one case = one history of saves (categories Op/OpX/Op_Y/O/Op_, re-saves, metadata with absent keys and the "
-        "incomplete flag True/False/None/absent) on the three real cassettes + one lookup (category, filter from the "
-        "C14 universe, limit, ordered/real-RNG/scripted-RNG listing, S3 key prefix, optional time window, through "
-        "iter_recording_ids or find_matching_recording_ids with skip_incomplete on/off); non-trivial = the lookup "
+RULE = ("one case = one history of saves (categories Op/OpX/Op_Y/O/Op_ or, every fifth history, categories named like "
+        "the storage layout's own literals: metadata/Op_metadata/metadata_/full/tape_recorder_recordings/p/json; re-saves, "
+        "metadata with absent keys and the incomplete flag True/False/None/absent) on the three real cassettes + one "
+        "lookup (category, filter from the C14 universe incl. every way a caller can constrain the incomplete flag "
+        "himself, limit, ordered/real-RNG/scripted-RNG listing, S3 key prefix, optional time window, through "
+        "iter_recording_ids or find_matching_recording_ids with skip_incomplete on/off); deterministic streams: prefix "
+        "categories x key prefixes, layout-literal categories x key prefixes x (plain / filter / window), flag values x "
+        "lookups, caller's flag filters x default lookup, day folders x limits x merge schedules; non-trivial = the lookup "
         "selects a non-empty proper subset of the stored recordings; distinct = distinct (history, lookup)")
 EXHAUSTIVE = {"quick": False, "thorough": False}
 ASSUMPTIONS = [
@@ -26,7 +30,8 @@ ASSUMPTIONS = [
     "an observation, not part of the theorem or of the count rule)",
     "cassettes_agree: metadata is JSON-native (S3 matches on json.loads of the encoded metadata)",
     "the bucket holds no foreign key under this cassette's metadata root (C15 owns confinement); sibling key "
-    "prefixes are exercised as decoys on the implementation side",
+    "prefixes are exercised as decoys on the implementation side (with a category called 'metadata' only those "
+    "siblings whose root is not inside this cassette's root: layout_decoys)",
 ]
 TRUSTED = ["fake bucket behind the real S3BasicFacade; fake clock; uuid.uuid1 replaced by the case's hex text; "
            "scripted RNG (shuffle = reverse, choice = scripted index) for random:2 cases",
@@ -38,6 +43,28 @@ BASE = datetime.datetime(2020, 2, 27)
 INC = "_tape_recorder_incomplete_recording"
 CATS = ["Op", "OpX", "Op_Y", "O", "Op_"]
 KPS = ["", "p", "p/q", "pq", "metadata", "xmetadata/y"]
+# categories whose text collides with the storage layout's own literals (key templates
+# 'tape_recorder_recordings/{key_prefix}metadata/{id}' / '.../full/{id}', a key prefix, the file suffix): the id has to
+# be recovered from the key / file name whatever the category text is
+LCATS = ["metadata", "Op_metadata", "full", "tape_recorder_recordings", "p", "Op", "json", "metadata_"]
+DECOYS = {'': ['metadata', 'p'], 'p': ['pq', 'p/q', ''], 'p/q': ['p', 'p/qq'], 'pq': ['p', ''],
+          'metadata': ['', 'metadata/metadata'], 'xmetadata/y': ['x', 'xmetadata', 'y']}
+# what a caller can say about the flag in his own filter (the default lookup has to override all of them)
+FLAG_FILTERS = [pv.b(False), pv.b(True), pv.none(), pv.lst([pv.b(False), pv.none()]), pv.lst([pv.none()]),
+                pv.lst([pv.b(True), pv.b(False), pv.none()]), pv.lst([pv.b(True)]),
+                pv.dct([("operator", pv.s("=")), ("value", pv.none())]),
+                pv.dct([("operator", pv.s("=")), ("value", pv.b(True))]),
+                pv.dct([("operator", pv.s("!=")), ("value", pv.b(False))])]
+
+
+def s3_root(kp):
+    return "tape_recorder_recordings/" + ((kp + "/") if kp else "") + "metadata/"
+
+
+def layout_decoys(kp):
+    """Sibling key prefixes whose keys are NOT under this cassette's metadata root (the ASSUMPTION on foreign keys):
+    with a category called 'metadata' the sibling prefix 'metadata' of the empty prefix would be inside the root."""
+    return [d for d in DECOYS.get(kp, []) if not s3_root(d).startswith(s3_root(kp))]
 CLASS_NAMES = {1: "lib.pyvals.OpaqueA", 2: "lib.pyvals.OpaqueB"}
 
 ATOMS = [pv.none(), pv.b(True), pv.b(False), pv.i(0), pv.i(1), pv.i(2), pv.fl(3, 2), pv.s(""), pv.s("a"), pv.s("ab"),
@@ -70,9 +97,9 @@ def rand_hex(rng):
     return "".join(rng.choice("0123456789abcdef") for _ in range(32))
 
 
-def rand_hist(rng, days=4, native=True):
+def rand_hist(rng, days=4, native=True, pool=CATS):
     n = rng.choice([0, 1, 2, 3, 5, 6, 8, 10, 12])
-    cats = rng.sample(CATS, rng.randrange(2, len(CATS) + 1))
+    cats = rng.sample(pool, rng.randrange(2, len(pool) + 1))
     ents = []
     for _ in range(n):
         t = rng.randrange(0, days * 24) * H + rng.choice([0, 0, 1, DAY - 1, rng.randrange(H)])
@@ -108,8 +135,7 @@ def rand_filter(rng, allow_inc=True):
         if k == "tenant" and rng.random() < 0.6:
             v = rng.choice([pv.s("a"), pv.s("a*"), pv.s("?"), pv.lst([pv.s("b"), pv.none()]), pv.s("b")])
         elif k == INC:
-            v = rng.choice([pv.b(False), pv.b(True), pv.none(), pv.lst([pv.b(False), pv.none()]), pv.lst([pv.none()]),
-                            pv.dct([("operator", pv.s("=")), ("value", pv.none())])])
+            v = rng.choice(FLAG_FILTERS)
         elif k == "n" and rng.random() < 0.5:
             v = rng.choice([pv.i(1), pv.dct([("operator", pv.s(">=")), ("value", pv.i(1))]),
                             pv.dct([("operator", pv.s("<")), ("value", pv.fl(3, 2))]), pv.lst([pv.i(0), pv.none()])])
@@ -119,12 +145,12 @@ def rand_filter(rng, allow_inc=True):
     return out
 
 
-def rand_query(rng, hist, days=4):
+def rand_query(rng, hist, days=4, pool=CATS):
     q = {}
     cats = sorted({e["cat"] for e in hist}) or ["Op"]
-    q["cat"] = rng.choice(cats + cats + CATS + ["Zz"])
+    q["cat"] = rng.choice(cats + cats + pool + ["Zz"])
     q["skip"] = rng.choice([None, None, True, True, False])
-    q["filter"] = rand_filter(rng, allow_inc=(q["skip"] is not True or rng.random() < 0.15))
+    q["filter"] = rand_filter(rng, allow_inc=(q["skip"] is not True or rng.random() < 0.35))
     q["limit"] = rng.choice([None, None, None, 1, 2, 5, 50, 1, 2])
     if rng.random() < 0.03:
         q["limit"] = 0
@@ -167,6 +193,25 @@ def targeted(rng):
             for lim in (None, 1, 2, 5, 50):
                 out.append(dict(hist=h2, kp="", cat="Op", filter=f, limit=lim, random=0, sched=[0], seed=0,
                                 start=None, end=None, now=9 * H, skip=skip))
+    # the default lookup under a caller's filter that itself names the flag (alone / next to an ordinary key): the
+    # forced skip-incomplete meaning wins whatever the caller said about the flag; plain listings honour the caller
+    for fv in FLAG_FILTERS:
+        for extra in ([], [["tenant", pv.s("a")]]):
+            for pos in (0, 1):
+                f = ([[INC, fv]] + extra) if pos == 0 else (extra + [[INC, fv]])
+                if pos == 1 and not extra:
+                    continue
+                for skip, lim in ((True, None), (True, 2), (False, None)):
+                    out.append(dict(hist=h2, kp="p", cat="Op", filter=f, limit=lim, random=0, sched=[0], seed=0,
+                                    start=None, end=None, now=9 * H, skip=skip))
+    # categories named like the storage layout's literals, under every key prefix, with and without a window / filter
+    h5 = [dict(cat=c, uuid=u[i], ct=i * 7 * H, t=i * 7 * H, meta=[["tenant", pv.s("ab"[i % 2])]]) for i, c in
+          enumerate(LCATS + ["metadata", "Op_metadata", "full"])]
+    for kp in KPS:
+        for c in LCATS:
+            for f, win in ((None, False), ([["tenant", pv.s("a")]], False), (None, True)):
+                out.append(dict(hist=h5, kp=kp, decoys=layout_decoys(kp), cat=c, filter=f, limit=None, random=0, sched=[0],
+                                seed=0, start=0 if win else None, end=4 * DAY if win else None, now=4 * DAY, skip=None))
     # several day folders, limits, ordered / scripted round-robin / real RNG
     h3 = [dict(cat="Op", uuid=u[i], ct=t, t=t, meta=[["n", pv.i(i % 3)]]) for i, t in
           enumerate([1 * H, 2 * H, 3 * H, DAY + H, DAY + 2 * H, 2 * DAY + H, 2 * DAY + 2 * H, 2 * DAY + 3 * H, 3 * DAY + 1])]
@@ -198,11 +243,15 @@ def generate(rng, tier):
     n_hist, n_q = (45, 14) if tier == "quick" else (600, 20)
     for k in range(n_hist):
         native = rng.random() < 0.85
-        hist = rand_hist(rng, native=native)
+        layout = k % 5 == 4               # every fifth history: categories named like the storage layout's literals
+        pool = LCATS if layout else CATS
+        hist = rand_hist(rng, native=native, pool=pool)
         kp = KPS[k % len(KPS)]
         for _ in range(n_q):
-            q = rand_query(rng, hist)
+            q = rand_query(rng, hist, pool=pool)
             q.update(hist=hist, kp=kp)
+            if layout:
+                q["decoys"] = layout_decoys(kp)
             cases.append(q)
     for i, exp in CAT_IDS:
         cases.append(dict(kind="cat", id=i, expect=exp))
